@@ -251,6 +251,10 @@ class _ScriptedPlug(base_plugs.BasePlug, metaclass=_NameHashMeta):
     if td == 'raise':
       ctx.ev('plug_td_raise', type(self).__name__, self.serial)
       raise OtherExc('tearDown of %s' % type(self).__name__)
+    if td == 'raise_base':
+      # e.g. a tearDown that calls sys.exit(), or is cancelled: not an Exception subclass
+      ctx.ev('plug_td_raise', type(self).__name__, self.serial)
+      raise SystemExit('tearDown of %s' % type(self).__name__)
     if td == 'slow':
       core.sim_sleep(cfg.get('td_dur', 0.3))
     if td == 'hang':
